@@ -1,7 +1,7 @@
 // C17 — AArch64 immediate codecs: logical bitmask immediates, add/sub, FP8, byte masks (arm/armutils.h) and the
 // move-wide sequences / element-index split that live as static functions in a64assembler.cpp (reached by #include).
 #include "verif.h"
-#include "../../../repo/asmjit/arm/a64assembler.cpp"
+#include <asmjit/arm/a64assembler.cpp>
 using namespace asmjit;
 
 // ---- reference: DecodeBitMasks (ARM ARM, shared/functions/aarch64 DecodeBitMasks), returns false if reserved.
